@@ -53,7 +53,7 @@ def run(ctx):
             return text
         wired[0] += 1
         return bytes.fromhex(out[0].split()[0]).decode("latin-1")
-    knobs = {"wire": wire, "p_wire": 0.5, "steps": 20, "durs": [1000, 2000, 59000, 60000, 61000, 3600000, 86400000, 90061000, 604800000, 5443200000],
+    knobs = {"wire": wire, "p_wire": 0.5, "steps": 20, "durs": [1000, 2000, 59000, 60000, 61000, 3600000, 86400000, 90061000, 604800000, 5443200000, 2147558400000, 2147483648000],
              "dur_forms": [None, "iso", "iso", "dtend"], "chk": False, "limits": [None], "p_cancel": 0.1,
              # start times: 2030-01-01, and the minutes before the leap day of 2028 and before its end (DTEND - DTSTART across them)
              "t0s": [p_echsd.T0, p_echsd.T0, 1835395140, 1835481510]}
@@ -98,6 +98,52 @@ def run(ctx):
         else:
             if "STATUS:CANCELLED" not in jr or el > 0.9:
                 fails.append("overdue execution request %s was not refused (ran %.1f s): %s" % (n, el, jr[-200:]))
+    # ---- (c) two hand-made requests: a limit is its task's and nobody else's
+    base2 = tempfile.mkdtemp(prefix="hxc14b-", dir=os.environ.get("TMPDIR", "/tmp"))
+    uid, gid = os.getuid(), os.getgid()
+    head = ["X-ECHS-SETUID:%d" % uid, "X-ECHS-SETGID:%d" % gid, "X-ECHS-SHELL:/bin/sh", "X-ECHS-MAIL-OUT:0", "X-ECHS-MAIL-ERR:0", "ORGANIZER:echse"]
+    # (1) the first task of a request cannot be started and leaves its alarm behind, the second has no limit
+    two = "\n".join(["BEGIN:VCALENDAR", "VERSION:2.0", "BEGIN:VTODO", "UID:first", "SUMMARY:sleep 1", "LOCATION:%s/nonexistent" % base2, "DURATION:PT2S"] + head +
+                    ["END:VTODO", "BEGIN:VTODO", "UID:second", "SUMMARY:sleep 4", "LOCATION:%s" % base2] + head + ["END:VTODO", "END:VCALENDAR", ""])
+    env = dict(os.environ, HX_SENDMAIL="/bin/true", ASAN_OPTIONS="detect_leaks=0")
+    try:
+        r = subprocess.run([exe, "-v"], input=two.encode(), stdout=subprocess.PIPE, stderr=subprocess.PIPE, env=env, timeout=60)
+        j = r.stdout.decode("latin-1")
+    except subprocess.TimeoutExpired:
+        j = "TIMEOUT"
+    sec = j.split("UID:second")[-1] if "UID:second" in j else ""
+    obs.append("two tasks, the first with PT2S not started: second %s" % (re.findall(r"X-SIGNAL:\d+|X-EXIT-STATUS:\d+", sec) or j[-80:]))
+    if "X-EXIT-STATUS:0" not in sec or "X-SIGNAL" in sec:
+        fails.append("a request of two tasks: the first (DURATION:PT2S) cannot be started, the second (`sleep 4', no limit) must run to its end; its journal entry: %s"
+                     % (re.findall(r"X-SIGNAL:.*|X-EXIT-STATUS:.*|STATUS:.*", sec) or j[-200:]))
+    # (2) the limit runs out while echsx is still opening the task's stdin (a FIFO nobody writes to): nothing but the task may be hit
+    fifo = os.path.join(base2, "fifo")
+    os.mkfifo(fifo)
+    one = "\n".join(["BEGIN:VCALENDAR", "VERSION:2.0", "BEGIN:VTODO", "UID:blocked", "SUMMARY:cat", "LOCATION:%s" % base2, "X-ECHS-IFILE:%s" % fifo, "DURATION:PT2S"] + head +
+                    ["END:VTODO", "END:VCALENDAR", ""])
+    p = subprocess.Popen(["bash", "-c", 'sleep 30 >/dev/null 2>&1 </dev/null & echo $!; exec "$0" -v', exe], stdin=subprocess.PIPE, stdout=subprocess.PIPE, stderr=subprocess.PIPE,
+                         env=env, start_new_session=True)
+    t0 = time.time()
+    try:
+        out, err = p.communicate(one.encode(), timeout=20)
+        out = out.decode("latin-1")
+    except subprocess.TimeoutExpired:
+        os.killpg(p.pid, 9)
+        out, err = "0\nTIMEOUT", b""
+    el = time.time() - t0
+    sib = int(out.split("\n")[0] or 0) if out.split("\n")[0].strip().isdigit() else 0
+    alive = False
+    if sib:
+        try:
+            os.kill(sib, 0); alive = True; os.kill(sib, 9)
+        except OSError:
+            alive = False
+    obs.append("limit running out while the stdin FIFO is being opened: %.1f s, sibling process of the group %s, echsx ended %s" % (
+        el, "alive" if alive else "gone", p.returncode))
+    if not alive or "TIMEOUT" in out:
+        fails.append("DURATION:PT2S and an X-ECHS-IFILE FIFO nobody writes to: %s" % (
+            "echsx does not come back" if "TIMEOUT" in out else "the time limit's signal hit a process of echsx's group that is not the task (as echsd would be); echsx ended with %s" % p.returncode))
+    subprocess.run(["rm", "-rf", base2])
     ctx.cov["executor_runs"] = obs
     ctx.cov["evaluations"] = ctx.cov.get("evaluations", 0) + len(plan)
     if fails and not any(v["found"] for v in ctx.violations):
